@@ -112,11 +112,13 @@ def run (s : State) (h : List Op) : State := h.foldl step s
 /-! ## C level: `cpputest_malloc_set_out_of_memory_countdown`, `countdown()`, `cpputest_malloc_location`,
 `strdup/strndup/calloc` -/
 
-/-- which allocator `getCurrentMallocAllocator()` yields: the one that was installed before
-    (anything that really allocates) or `NullUnknownAllocator` -/
+/-- which allocator `getCurrentMallocAllocator()` yields: the default one (anything that really
+    allocates), `NullUnknownAllocator`, or a `FailableMemoryAllocator` that the test installed with
+    `setCurrentMallocAllocator` -/
 inductive Alloc
   | normal
   | null
+  | failable
 deriving Repr, DecidableEq, Inhabited
 
 structure CState where
@@ -171,6 +173,42 @@ def callocOverflows (num size : Nat) : Bool := decide (size ≠ 0 ∧ num > (2 ^
 def calloc (c : CState) (num size : Nat) : CState × Option (List UInt8) :=
   if callocOverflows num size then (c, none)
   else (mallocState c, if mallocNull c then none else some (List.replicate (num * size) 0))
+
+/-! ### the C-level API on top of an installed `FailableMemoryAllocator`
+
+`cpputest_malloc_location` asks `getCurrentMallocAllocator()` (through the leak detector, which hands size, file
+and line to `alloc_memory` unchanged and returns NULL when the allocator does): the null allocator answers NULL
+WITHOUT the failable allocator being called (its counters do not move); an installed failable allocator is
+asked at `(file, line)`; the default allocator succeeds. -/
+
+structure Both where
+  c  : CState
+  fa : State
+deriving Repr, DecidableEq, Inhabited
+
+structure MallocResult where
+  st     : Both
+  isNull : Bool
+  fired  : List Node
+deriving Repr, DecidableEq, Inhabited
+
+def mallocOver (b : Both) (file : String) (line : Nat) : MallocResult :=
+  match (mallocState b.c).cur with
+  | .null => { st := { b with c := mallocState b.c }, isNull := true, fired := [] }
+  | .failable => { st := { c := mallocState b.c, fa := allocState b.fa file line },
+                   isNull := allocFails b.fa file line, fired := allocFired b.fa file line }
+  | .normal => { st := { b with c := mallocState b.c }, isNull := false, fired := [] }
+
+/-- `cpputest_strdup_location` / `cpputest_strndup_location` / `cpputest_calloc_location` over `mallocOver` -/
+def strdupOver (b : Both) (str : List UInt8) (file : String) (line : Nat) : MallocResult × Option (List UInt8) :=
+  (mallocOver b file line, if (mallocOver b file line).isNull then none else some (str ++ [0]))
+
+def strndupOver (b : Both) (str : List UInt8) (n : Nat) (file : String) (line : Nat) : MallocResult × Option (List UInt8) :=
+  (mallocOver b file line, if (mallocOver b file line).isNull then none else some (str.take n ++ [0]))
+
+def callocOver (b : Both) (num size : Nat) (file : String) (line : Nat) : MallocResult × Option (List UInt8) :=
+  if callocOverflows num size then ({ st := b, isNull := true, fired := [] }, none)
+  else (mallocOver b file line, if (mallocOver b file line).isNull then none else some (List.replicate (num * size) 0))
 
 inductive COp
   | setCountdown (n : Int)
